@@ -1,3 +1,6 @@
 SPECIFICATION Spec
-INVARIANTS ParamsConsistent TablesWellFormed TuplesInRange WrapSolved Emit
+CONSTANTS ScanRows = {1, 9, 23}
+  ScanChunks = 48
+  ScanChunkSize = 5000
+INVARIANTS ParamsConsistent TablesWellFormed TuplesInRange WrapSolved EdgeInRange Emit
 CHECK_DEADLOCK FALSE
